@@ -80,7 +80,8 @@ let () =
       let alloc =
         (try Scanf.sscanf obs "alloc:%d|" (fun a -> a) with _ -> -1) in
       let verdict =
-        if alloc < 0 then "fail:malformed_obs"
+        if contains obs "crash" then "fail:alloc_crash"
+        else if alloc < 0 then "fail:malformed_obs"
         else if alloc > bound then "fail:alloc_unbounded"
         else if contains obs "panic" then "fail:panic"
         else "ok" in
